@@ -86,7 +86,7 @@ func javaHash(s string) int {
 func (t *TypeDesc) BucketHash(k any) uint {
 	switch t.Name {
 	case "LinkedMap", "LinkedSet":
-		return uint(k.(int64))
+		return LKey{k.(int64)}.Hash() // the harness's own key type defines this hash
 	case "IntKeyLinkedMap":
 		return uint(int32(k.(int64)) & 0x7fffffff)
 	case "LongKeyLinkedMap":
